@@ -95,6 +95,10 @@ Bounded == (Done /\ ~o.refused) =>
    LET i0 == Lo(c.fl2) + PhOff(c)  i1 == Hi(c.fl2) + PhOff(c) IN
    /\ Le(I(Tas(c.ph, i0)), o.tas) /\ Le(o.tas, I(Tas(c.ph, i1)))
 \* the symbolic masses mean the extreme table masses
+\* Ceilings: the aircraft's stated maximum altitude is a datum of the model beside the table, not part of it: whether it lies
+\* well above the table or exactly at the top tabulated level (the PTF case), Eval answers from the table alone - the top
+\* level, given in metres with the library's own factor, is a tabulated level
+Ceilings == {"above_table", "table_top"}
 \* (a numeric mass is a number: float, Python int, numpy integer or numpy float - MassForms - mean the same mass)
 MassForms == {"float", "int", "np.int64", "np.float64"}
 SymbolicMass == (Done /\ c.m2 \in {100, 101}) => o = EvalOut([c EXCEPT !.m2 = IF c.m2 = 100 THEN 0 ELSE 4])
